@@ -1,6 +1,7 @@
 package main
 
 import (
+	"sort"
 	"go/ast"
 	"go/constant"
 	"go/token"
@@ -706,8 +707,35 @@ func c04(c *Ctx) {
 	}
 
 	// R6 snapshot complete
-	c.Rule("R6", "E8 fieldcover + provenance", "snapshot() assigns every field of struct snapshot, scalar ones on all paths, each from the like-named span state", 16)
+	c.Rule("R6", "E8 fieldcover + provenance", "snapshot() assigns every field of struct snapshot, scalar ones on all paths, each from the like-named span state; a guarded copy reads only what its guard examined", 18)
 	ruleSnapshotComplete(c, ix, "R6")
+	// a copy made under a guard reads only what the guard examined: `if len(s.events.queue) > 0 { …; sd.dropped = s.events.droppedCount }`
+	// loses the count whenever the queue is empty (limit 0: everything dropped, nothing queued)
+	if fn := c.Fn(ix, "R6", "(*recordingSpan).snapshot"); fn != nil {
+		n := 0
+		inspectNoLit(fn.Body(), func(nd ast.Node) bool {
+			is, ok := nd.(*ast.IfStmt)
+			if !ok {
+				return true
+			}
+			for _, st := range is.Body.List {
+				as, ok := st.(*ast.AssignStmt)
+				if !ok || len(as.Lhs) != len(as.Rhs) {
+					continue
+				}
+				for i := range as.Lhs {
+					n++
+					gap := siblingGuardGap(info, is.Cond, as.Rhs[i])
+					c.Check(gap == "", "R6", "sdk/trace|(*recordingSpan).snapshot|"+exprStr(as.Lhs[i])+" copied under a guard that examines what it reads", at(ix.M, as.Pos()), "guard: "+exprStr(is.Cond),
+						exprStr(as.Lhs[i])+" is copied only if ("+exprStr(is.Cond)+") but reads "+gap+", which that condition does not look at: the value is lost whenever the condition is false (e.g. a dropped count with an empty queue — limit 0)")
+				}
+			}
+			return true
+		})
+		if n == 0 {
+			c.Missing("R6", "sdk/trace: guarded copies in snapshot()")
+		}
+	}
 
 	// R7 SetAttributes capacity routing
 	c.Rule("R7", "E3 dominance", "SetAttributes: limit 0 ⇒ everything dropped and counted; possible overflow ⇒ addOverCapAttrs; addOverCapAttrs appends only under len(attributes) < limit", 3)
@@ -1120,4 +1148,62 @@ func capReturnForm(ix *PkgIndex, h *FuncInfo) (zeroOK, overOK, restOK bool, why 
 		}
 	}
 	return
+}
+
+// siblingGuardGap: the guard examines a field path P.f (rooted at a variable) while the value reads a sibling path P.g that the
+// guard does not mention: returns the unexamined sibling paths ("" when there is none). Method calls on P itself count as
+// reading P as a whole and are not siblings.
+func siblingGuardGap(info *types.Info, guard, value ast.Expr) string {
+	paths := func(e ast.Expr) map[string]bool {
+		out := map[string]bool{}
+		var stack []ast.Node
+		ast.Inspect(e, func(n ast.Node) bool {
+			if n == nil {
+				stack = stack[:len(stack)-1]
+				return true
+			}
+			stack = append(stack, n)
+			sel, ok := n.(*ast.SelectorExpr)
+			if !ok {
+				return true
+			}
+			if _, isFld := info.Uses[sel.Sel].(*types.Var); !isFld {
+				return true
+			}
+			// outermost field selector only
+			if len(stack) >= 2 {
+				if p, ok := stack[len(stack)-2].(*ast.SelectorExpr); ok && p.X == ast.Expr(sel) {
+					if _, pf := info.Uses[p.Sel].(*types.Var); pf {
+						return true
+					}
+				}
+			}
+			if k := pathKey(info, sel); k != "" {
+				out[k] = true
+			}
+			return true
+		})
+		return out
+	}
+	gp, vp := paths(guard), paths(value)
+	parent := func(p string) string {
+		i := strings.LastIndex(p, ".")
+		if i < 0 {
+			return ""
+		}
+		return p[:i]
+	}
+	var missing []string
+	for v := range vp {
+		if gp[v] {
+			continue
+		}
+		for g := range gp {
+			if parent(g) != "" && parent(g) == parent(v) && strings.Count(g, ".") >= 2 {
+				missing = append(missing, v[strings.Index(v, ".")+1:])
+			}
+		}
+	}
+	sort.Strings(missing)
+	return strings.Join(missing, ", ")
 }
